@@ -14,5 +14,5 @@ def harnesses(tier):
         {'name': 'step-N3-W2', 'fn': graph.h_step,
          'cfg': {'prop': 'C16', 'N': 3, 'nW': 2, 'seqlen': 3, 'ops': graph.ALL_OPS}},
         {'name': 'step-N4-W1', 'fn': graph.h_step,
-         'cfg': {'prop': 'C16', 'N': 4, 'nW': 1, 'seqlen': 2, 'ops': graph.ALL_OPS}},
+         'cfg': {'prop': 'C16', 'N': 4, 'nW': 1, 'seqlen': 1, 'ops': graph.ALL_OPS}},
     ]
